@@ -421,6 +421,7 @@ class Exec(object):
         self.overflow_checks = overflow_checks
         self.solver = z3.Solver()
         self.solver.set('timeout', timeout_ms)
+        self.timeout_ms = timeout_ms
         self.nq = 0
         self.tsolve = 0.0
         self.finished = []
@@ -447,7 +448,20 @@ class Exec(object):
         self.nq += 1
         self.tsolve += time.time() - t
         if r == z3.unknown:
-            raise Unsupported('solver unknown (feasibility)')
+            # a path-feasibility query that times out (typically on a loaded machine: the solver's limit is wall-clock time) is retried once in a
+            # fresh solver with five times the limit before the run is declared inconclusive
+            t = time.time()
+            s2 = z3.Solver()
+            s2.set('timeout', int(self.timeout_ms * 5))
+            for c in st.pc:
+                s2.add(c)
+            s2.add(cond)
+            r = s2.check()
+            model = s2.model() if r == z3.sat else None
+            self.nq += 1
+            self.tsolve += time.time() - t
+            if r == z3.unknown:
+                raise Unsupported('solver unknown (feasibility)')
         return model
 
     def feasible(self, st, cond):
@@ -545,6 +559,8 @@ class Exec(object):
                     if stp[1] >= len(v.items):
                         raise Panic('index out of bounds')
                     v = v.items[stp[1]]
+                elif isinstance(v, list):
+                    v = v[stp[1]]
                 else:
                     raise Unsupported('index of %r' % (v,))
             elif k == 'attr':
@@ -574,7 +590,10 @@ class Exec(object):
             else:
                 raise Unsupported('store field into %r' % (parent,))
         elif last[0] == 'index':
-            parent.items[last[1]] = val
+            if isinstance(parent, list):
+                parent[last[1]] = val
+            else:
+                parent.items[last[1]] = val
         elif last[0] == 'attr':
             setattr(parent, last[1], val)
         elif last[0] == 'mapval':
